@@ -151,7 +151,7 @@ func (vc *VC) panicInstr(st *State, p *ssa.Panic) {
 	goal := F
 	if vc.depth == 0 && vc.Con != nil {
 		var alts []string
-		env := vc.funcEnv(vc.entry, p.Pos())
+		env := vc.entryEnv(vc.entry.clone())
 		for _, cl := range vc.Con.Of("panics-when") {
 			alts = append(alts, vc.specBool(env, cl))
 		}
@@ -218,6 +218,12 @@ func (vc *VC) enterLoop(li *LoopInfo, pre *State) *State {
 	h.assume(vc, Ge(al, pre.alloc))
 	for _, a := range sortedAllocs(li.hdrLocal) {
 		h.assume(vc, vc.valid(h, li.hdrLocal[a]))
+	}
+	if li.rangeIdx != nil {
+		// the hidden range index starts at -1 and only ever grows by one per iteration
+		if v, ok := h.locals[li.rangeIdx]; ok {
+			h.assume(vc, Le("(- 1)", v.S))
+		}
 	}
 	li.hdr = h.clone()
 	env2 := vc.funcEnv(h, li.Pos)
@@ -466,6 +472,8 @@ func (vc *VC) runOnce() {
 		st.assume(vc, vc.specBool(env, cl))
 	}
 	vc.entry = st.clone()
+	vc.lemmas(st, env)
+	vc.entry = st.clone()
 	vc.modset = vc.evalModifies(env, vc.Con.Of("modifies"))
 	if !vc.Con.Has("modifies") && vc.W.lenientFrame(vc.Con) {
 		vc.modset = &ModSet{All: true}
@@ -609,5 +617,53 @@ func (vc *VC) loopReturns(st *State, ret *ssa.Return, vals []Val) {
 			g := vc.specBool(env, cl)
 			vc.addObl("ret", fmt.Sprintf("ret:L%d#%d.%d", li.Ordinal, k, cl.Index), st, g, p, cl.Tags, cl.Text)
 		}
+	}
+}
+
+// lemmas: "lemma name: forall(i, lo, hi, P(i))" is proved by induction on i (base P(lo), step P(i) ==> P(i+1) for lo <= i < hi-1)
+// as two obligations in the entry state, and then assumed for the rest of the function.
+func (vc *VC) lemmas(st *State, env *Env) {
+	for _, cl := range vc.Con.Of("lemma") {
+		txt := strings.TrimSpace(cl.Text)
+		down := false
+		if strings.HasPrefix(txt, "down ") {
+			down = true
+			txt = strings.TrimSpace(txt[5:])
+		}
+		if !strings.HasPrefix(txt, "forall(") || !strings.HasSuffix(txt, ")") {
+			panic(specErr("%s:%d: lemma must have the form forall(i, lo, hi, P)", cl.File, cl.Line))
+		}
+		parts := splitTop(txt[len("forall("):len(txt)-1], ",")
+		if len(parts) < 4 {
+			panic(specErr("%s:%d: lemma must have the form forall(i, lo, hi, P)", cl.File, cl.Line))
+		}
+		v := strings.TrimSpace(parts[0])
+		body := strings.Join(parts[3:], ",")
+		vc.specDepth++
+		lo := env.eval(parts[1]).S
+		hi := env.eval(parts[2]).S
+		base := env.bind(v, IntV(lo, nil)).evalBool(body)
+		k := vc.fresh("lem_"+v, "Int")
+		pk := env.bind(v, IntV(k, nil)).evalBool(body)
+		pk1 := env.bind(v, IntV(Add(k, "1"), nil)).evalBool(body)
+		whole := env.evalBool(txt)
+		vc.specDepth--
+		if down {
+			// downward induction: P(hi-1), and P(k+1) ==> P(k)
+			vc.specDepth++
+			base = env.bind(v, IntV(Sub(hi, "1"), nil)).evalBool(body)
+			vc.specDepth--
+			vc.addObl("lemma", "lemma:"+cl.Name+":base", st, Imp(Lt(lo, hi), base), vc.Fn.Pos(), cl.Tags, cl.Text)
+			stepSt := st.clone()
+			stepSt.assume(vc, And(Le(lo, k), Lt(Add(k, "1"), hi), pk1))
+			vc.addObl("lemma", "lemma:"+cl.Name+":step", stepSt, pk, vc.Fn.Pos(), cl.Tags, cl.Text)
+			st.assume(vc, whole)
+			continue
+		}
+		vc.addObl("lemma", "lemma:"+cl.Name+":base", st, Imp(Lt(lo, hi), base), vc.Fn.Pos(), cl.Tags, cl.Text)
+		stepSt := st.clone()
+		stepSt.assume(vc, And(Le(lo, k), Lt(Add(k, "1"), hi), pk))
+		vc.addObl("lemma", "lemma:"+cl.Name+":step", stepSt, pk1, vc.Fn.Pos(), cl.Tags, cl.Text)
+		st.assume(vc, whole)
 	}
 }
